@@ -1,7 +1,7 @@
 (* Entry.v — entry points of the directive-layer model for the correspondence driver, with
    the regenerated program plugged in, and renderers that turn results into plain data
    (names, lines) so that the OCaml driver only prints.  No proofs here. *)
-From JS Require Import Base Bytes Scanner Directive Core Expand ScanRun.
+From JS Require Import Base Bytes Scanner Directive Core Expand Catalog ScanRun.
 From JS Require ScannerProg.
 Open Scope Z_scope.
 
@@ -59,13 +59,19 @@ Fixpoint render_dir (fuel : nat) (files : list (bytes * bytes)) (d : dir) : rdir
           | S f => List.map (render_dir f files) (d_children d)
           end).
 
+Inductive cat_result :=
+| CatOk (c : catalog)
+| CatErr (e : rerr)
+| CatPanic (p : cpanic)
+| CatFuel.
+
 Inductive tree_result :=
 | TScanErr (e : rerr) (log : list (string * bytes))
 | TScanPanic (p : cpanic) (log : list (string * bytes))
 | TFuel
 | TScanned (dirs : list rdir) (log : list (string * bytes)) (x : tree_phase2)
 with tree_phase2 :=
-| T2Ok (roots : list rdir) (macro_names : list bytes) (expanded : list rdir) (enums : list bytes)
+| T2Ok (roots : list rdir) (macro_names : list bytes) (expanded : list rdir) (enums : list bytes) (cat : cat_result)
 | T2Err (e : rerr)
 | T2ErrOneOf (es : list rerr)
 | T2Panic (p : cpanic)
@@ -73,7 +79,7 @@ with tree_phase2 :=
 
 Definition render_depth : nat := 64.
 
-Definition tree_case (fs : fsmap) (root : bytes) (ot : otable) (et : etable) (fuel : nat) : tree_result :=
+Definition tree_case_b (banned : list N) (fs : fsmap) (root : bytes) (ot : otable) (et : etable) (fuel : nat) : tree_result :=
   match fs_lookup fs root with
   | Some (FFile content) =>
       let st0 := initial_cstate ScannerProg.initial_state root content in
@@ -98,6 +104,17 @@ Definition tree_case (fs : fsmap) (root : bytes) (ot : otable) (et : etable) (fu
                       (List.map fst (ex_macros ex))
                       (List.map (render_dir render_depth files) (ex_forest ex))
                       (ex_enums ex)
+                      (let read_body (c : coords) : bytes :=
+                         match nth_error files (N.to_nat (co_file c)) with
+                         | Some (_, content) => sub content (co_begin c) (co_end c + 1)
+                         | None => []
+                         end in
+                       match build_catalog read_body banned 200 (ex_forest ex) with
+                       | COk c => CatOk c
+                       | CErr e => CatErr (render_err files e)
+                       | CPanic p => CatPanic p
+                       | CFuel => CatFuel
+                       end)
              | XErr e => T2Err (render_err files e)
              | XErrOneOf es => T2ErrOneOf (List.map (render_err files) es)
              | XPanic p => T2Panic p
@@ -106,3 +123,5 @@ Definition tree_case (fs : fsmap) (root : bytes) (ot : otable) (et : etable) (fu
       end
   | _ => TFuel
   end.
+
+Definition tree_case := tree_case_b [].
